@@ -74,6 +74,10 @@ func (s *story) joinPhase(op string) (in bool) {
 		if r.Intn(2) == 0 {
 			// other occupants first, as a real room does; the join must stay pending
 			for k := 0; k <= r.Intn(3); k++ {
+				if r.Intn(4) == 0 {
+					s.add(step{Op: "other-malformed", N: r.Intn(2 * len(malformedPayloads))})
+					continue
+				}
 				s.add(step{Op: "other"})
 			}
 			if r.Intn(2) == 0 {
@@ -168,7 +172,10 @@ func (s *story) inRoom() (stillIn bool) {
 		s.add(step{Op: "barrier"})
 	}
 	for k := r.Intn(3); k > 0; k-- {
-		switch r.Intn(4) {
+		switch r.Intn(5) {
+		case 4:
+			s.add(step{Op: "other-malformed", N: r.Intn(2 * len(malformedPayloads))})
+			s.add(step{Op: "barrier"})
 		case 0:
 			s.add(step{Op: "other"})
 		case 1:
@@ -291,6 +298,12 @@ func genCase(r *rand.Rand) *muCase {
 			}
 			mc.Steps = append(mc.Steps, step{Op: "invite", Inv: iv})
 		case 2:
+			if r.Intn(2) == 0 {
+				// an undecodable muc#user payload from a room nobody joined; the
+				// barrier behind it shows whether the session survived
+				mc.Steps = append(mc.Steps, step{Op: "foreign-malformed", N: r.Intn(2 * len(malformedPayloads))}, step{Op: "barrier"})
+				break
+			}
 			mc.Steps = append(mc.Steps, step{Op: "foreign"})
 		case 3:
 			mc.Steps = append(mc.Steps, step{Op: "foreign-unavailable"})
